@@ -333,10 +333,11 @@ func (vars algorithmExpansion) Call() (ExpandedValue, error) {
 			orderedValueIdxs = append(orderedValueIdxs, termIdx)
 		}
 
+		// the comparison function receives the elements of orderedValueIdxs, i.e. indexes into valueArray
 		slices.SortFunc(orderedValueIdxs, func(i, j int) int {
 			return strings.Compare(
-				valueArray[orderedValueIdxs[i]].(inspectjson.StringValue).Value,
-				valueArray[orderedValueIdxs[j]].(inspectjson.StringValue).Value,
+				valueArray[i].(inspectjson.StringValue).Value,
+				valueArray[j].(inspectjson.StringValue).Value,
 			)
 		})
 
